@@ -111,9 +111,13 @@ func (h *Hub) Start() {
 
 // close all connections
 func (h *Hub) Shutdown() {
+	// a connection that is being set up right now is either registered before this
+	// (and closed below) or sees the flag and is dropped
+	h.muxConSetup.Lock()
 	h.muxStarted.Lock()
 	h.isShutdown = true
 	h.muxStarted.Unlock()
+	h.muxConSetup.Unlock()
 
 	h.mdns.Shutdown()
 
